@@ -1,0 +1,47 @@
+//go:build verif
+
+package isaacdatabase
+
+import (
+	"context"
+
+	"github.com/spikeekips/mitum/base"
+)
+
+// Verification hook H4 (build tag "verif" only): exported passthroughs to the
+// unexported maintenance steps of Center which otherwise only run from the
+// periodic merge daemon.
+
+// VerifMergeOnePermanent merges the oldest temp database into the permanent
+// database; one step of the merge daemon.
+func (db *Center) VerifMergeOnePermanent(ctx context.Context) (bool, error) {
+	return db.mergePermanent(ctx)
+}
+
+// VerifCleanRemoved removes the data of the merged temp databases except the
+// newest limit ones; the other step of the merge daemon.
+func (db *Center) VerifCleanRemoved(limit int) error {
+	return db.cleanRemoved(limit)
+}
+
+// VerifActiveTempHeights returns the heights of the active temp databases,
+// newest first.
+func (db *Center) VerifActiveTempHeights() []base.Height {
+	temps := db.activeTemps()
+
+	hs := make([]base.Height, len(temps))
+	for i := range temps {
+		hs[i] = temps[i].Height()
+	}
+
+	return hs
+}
+
+// VerifRemovedTemps returns the number of merged temp databases which are not
+// yet cleaned.
+func (db *Center) VerifRemovedTemps() int {
+	db.l.RLock()
+	defer db.l.RUnlock()
+
+	return len(db.removed)
+}
